@@ -1,2 +1,84 @@
-(* C08 — theorems are added below as the proofs land. *)
-From SC Require Import Base.Prelude Resource.Impl Resource.Spec Resource.Pull.
+(* C08 — Include-filtered List/Pull behave as the filtered collection.
+   Theorems only; for an arbitrary message algebra, ANY include predicate (a function of id and
+   value, also one that is true on absent values), any read mask and every history. *)
+From SC Require Import Base.Prelude Resource.Impl Resource.Spec Resource.Pull Resource.ImplProofs
+  Resource.SpecProofs Resource.PullProofs Resource.Flat Resource.Judge.
+
+Section C08.
+  Variable M : Type.
+  Variable m_eqb : M -> M -> bool.
+  Variable m_empty : M.
+  Variable writer : Type.
+  Variable w_validate : writer -> option Z.
+  Variable w_merge : writer -> M -> M -> M.
+  Variable rmask : Type.
+  Variable r_filter : rmask -> M -> M.
+  Variable clock_at : Z -> Z.
+  Variable str_ltb : string -> string -> bool.
+  Variable idfun : option (string -> string).
+  Hypothesis ltb_irrefl : forall a, str_ltb a a = false.
+  Hypothesis ltb_trans : forall a b c, str_ltb a b = true -> str_ltb b c = true -> str_ltb a c = true.
+  Hypothesis ltb_total : forall a b, str_ltb a b = false -> str_ltb b a = false -> a = b.
+
+  Notation spec_step := (spec_step m_eqb m_empty w_validate w_merge r_filter clock_at str_ltb idfun).
+
+  (* the decision table: starts matching => ADD, stops matching => REMOVE, stays in => delivered as
+     it is, stays out => never delivered (absent values never match) *)
+  Theorem C08_decision_table : forall f (c : cchange M),
+    include_gen false false (Some f) c =
+    match incl f (cc_id c) (cc_old c), incl f (cc_id c) (cc_new c) with
+    | true, true => Some c
+    | false, false => None
+    | false, true => Some (mkCC (cc_id c) (cc_time c) KAdd None (cc_new c) (cc_seed c) false)
+    | true, false => Some (mkCC (cc_id c) (cc_time c) KRemove (cc_old c) None false false)
+    end.
+  Proof. intros. apply include_decision_table. Qed.
+
+  (* folding the filtered stream always yields List with the same predicate and mask *)
+  Theorem C08_filtered_fold_is_filtered_list : forall (ro : ropts M rmask) ops s s' outs,
+    ro_updates_only ro = false -> sorted str_ltb (c_items s) ->
+    run spec_step s ops = (s', outs) ->
+    forall id,
+      vlookup id (fold_view (pull_collection r_filter None s ro (flat_map snd outs))) =
+      vlookup id (c_list r_filter s' (ro_mask ro) (ro_include ro)).
+  Proof. intros. eapply filtered_fold_is_filtered_list; eauto. Qed.
+
+  (* the seed is the filtered list *)
+  Theorem C08_seed_is_filtered_list : forall (ro : ropts M rmask) (s : cstate M),
+    map (@cc_id M) (seeds r_filter ro (included ro (c_items s))) =
+    map fst (c_list r_filter s (ro_mask ro) (ro_include ro)).
+  Proof.
+    intros. destruct (seeds_shape r_filter ro (included ro (c_items s))) as [H _]. rewrite H.
+    unfold c_list, included. rewrite map_map. reflexivity.
+  Qed.
+End C08.
+
+Print Assumptions C08_decision_table.
+Print Assumptions C08_filtered_fold_is_filtered_list.
+Print Assumptions C08_seed_is_filtered_list.
+
+(* the pinned commit's table: an update between two matching versions was dropped, and with a
+   predicate true on absent values a delete of a non-matching item became an ADD of nothing *)
+Theorem C08_polarity_v0_refuted :
+  include_gen true true (Some (interp_pred (PIdIn ["a"%string])))
+              (mkCC "a" 0 KUpdate (Some (mkF 1 0 0)) (Some (mkF 2 0 0)) false false) = None /\
+  include_gen true true (Some (interp_pred (PIdIn ["a"%string])))
+              (mkCC "b" 0 KUpdate (Some (mkF 1 0 0)) (Some (mkF 2 0 0)) false false) <> None.
+Proof. vm_compute. split; [reflexivity|discriminate]. Qed.
+
+Theorem C08_absent_v0_refuted :
+  include_gen false true (Some (interp_pred (PAbsentTrue (PFieldGe Fa 5))))
+              (mkCC "a" 0 KRemove (Some (mkF 1 0 0)) None false false) =
+  Some (mkCC "a" 0 KAdd None None false false).
+Proof. vm_compute. reflexivity. Qed.
+
+Example C08_nonvacuous :
+  let o := mkFWO None None None None false None false None false None None true false false false in
+  let ro := mkFRO None false (Some (PFieldGe Fa 2)) in
+  let '(cs, s2) := model_cstream None None None [FUpdate "a" (mkF 1 0 0) o []; FUpdate "b" (mkF 3 0 0) o []] ro
+                     [FUpdate "a" (mkF 2 0 0) o []; FUpdate "b" (mkF 1 0 0) o []; FUpdate "a" (mkF 4 0 0) o []] in
+  map (fun c => (cc_id c, cc_kind c, cc_seed c)) cs =
+    [("b"%string, KAdd, true); ("a"%string, KAdd, false); ("b"%string, KRemove, false); ("a"%string, KUpdate, false)] /\
+  fold_view cs = [("a"%string, mkF 4 0 0)] /\
+  c_list fr_filter s2 None (Some (interp_pred (PFieldGe Fa 2))) = [("a"%string, mkF 4 0 0)].
+Proof. vm_compute. auto. Qed.
